@@ -1,11 +1,17 @@
 /-
-  C18 — model of `MappingSchema` (sqlglot/schema.py) with its caches, and of the trie lookup
-  (sqlglot/trie.py `in_trie`, schema.py `_find_in_trie`, `flatten_schema`, `nested_get`, `nested_set`).
+  C18 — the FLAT SPECIFICATION of `MappingSchema` (sqlglot/schema.py): what `add_table`, `find`, `column_names`
+  (incl. `only_visible`), `get_column_type`, `has_column` answer, with the `_find_cache` in front of `find`.
 
   Flat view of the nested mapping: a list of (path, columns), path outermost-first (catalog, db, table).
   The trie is viewed as the list of its keys (reversed paths: table first).  Only the *set* of keys and the
-  mapping's content are observable through the public API (the order of `possibilities` only shows in the
-  text of the "Ambiguous mapping" message, which the harness canonicalises to an error kind).
+  mapping's content as a finite map are observable through the public API (the order of `possibilities` only shows
+  in the text of the "Ambiguous mapping" message, which the harness canonicalises to an error kind) —
+  `Proofs/SchemaFull.lean: stepN_congr` proves exactly that.
+
+  Normalisation is a function of ALL its real inputs (strategy, quoted, is_table, BigQuery's table-sensitivity),
+  the case maps and `DataType.from_str` are parameters (`Env`).  The nested dict, the nested trie and the other
+  four caches live in Model/SchemaTree.lean, Model/SchemaMemo.lean, Model/SchemaFull.lean; the full model is proved
+  to refine this specification (Properties/C18.lean: `full_schema_refines_fresh`).
 -/
 import SqlglotModel.Model.Ident
 
